@@ -180,7 +180,7 @@ func c20FloorCfg(reno bool, dq, dt int) func(bool) *c20Cfg {
 		if th {
 			c.depth = dt
 			c.sizes = []int{0, 1}
-			c.starts = append(c.starts, c20Start{pkts: 8, losses: 4}, c20Start{pkts: 32, losses: 7}, c20Start{pkts: 3, losses: 1, mds: c20InitLo}, c20Start{prod: true, pkts: 32, losses: 7, mds: c20InitHi})
+			c.starts = append(c.starts, c20Start{pkts: 8, losses: 4}, c20Start{pkts: 32, losses: 7}, c20Start{pkts: 3, losses: 1, mds: c20InitLo})
 		}
 		return c
 	}
@@ -210,7 +210,7 @@ func TestVerifC20Cc(t *testing.T) {
 		c20Part("cubic-pacer", c20PacerCfg(false, 4, 5, 6)),
 		c20Part("reno-pacer-mtu", c20PacerMTUCfg(true, 4, 6, 7)),
 		c20Part("cubic-pacer-mtu", c20PacerMTUCfg(false, 4, 5, 6)), // Cubic is not selected by the production constructors: one level less
-		c20Part("reno-pacer-init", c20PacerInitCfg(true, 5, 7)),    // depth counts the start choice
+		c20Part("reno-pacer-init", c20PacerInitCfg(true, 6, 7)),    // depth counts the start choice
 		c20Part("cubic-pacer-init", c20PacerInitCfg(false, 5, 6)),
 		c20Part("reno-cap", c20CapCfg(true, 6, 8)),
 		c20Part("cubic-cap", c20CapCfg(false, 6, 8)),
